@@ -115,6 +115,14 @@ def one(rng):
 def cli_case(rng):
     """`treetools grammar` on a treebank, then with the written RCG grammar as input"""
     ts, _, _, _, _ = mk(rng)
+    if rng.random() < 0.15:
+        # a treebank of more than a hundred sentences (progress reporting, batching): the same small trees over and over
+        big = []
+        for i in range(rng.choice([100, 101, 199, 230])):
+            c = clone(ts[i % len(ts)])
+            c.data['sid'] = i + 1
+            big.append(c)
+        ts = big
     text = ""
     for t in ts:
         s = io.StringIO()
@@ -189,7 +197,7 @@ def cli_case(rng):
                 g2, l2 = grammarinput.rcg(sc.path("g1"), "utf-8")
             lines.append(Line("corr", "read_rcg", [gram.enc_lines(gl), gram.enc_lines(ll)],
                               gram.enc_grammar(g2) + " # " + gram.enc_lexicon(l2)))
-    return Case("cli", {"trees": [proto.pretty_tree(t) for t in ts], "gramtype": gtype, "src_enc": senc, "dest_enc": denc}, lines, nontrivial=True)
+    return Case("cli", {"trees": [proto.pretty_tree(t) for t in ts[:8]], "sentences": len(ts), "gramtype": gtype, "src_enc": senc, "dest_enc": denc}, lines, nontrivial=True)
 
 
 def gen(seed, tier, scale):
